@@ -101,3 +101,97 @@ func VerifHarness_C15_ResolvePackage() {
 }
 
 func filepathIsAbs(p string) bool { return filepath.IsAbs(p) }
+
+// VerifHarness_C15_DefaultOutputFile: a variables block in <dir>/<stem><ext> lands in <stem>.gen<ext>, where
+// <ext> is the final extension only; an interface converter defaults to ./generated/generated.go.
+func VerifHarness_C15_DefaultOutputFile() {
+	file := nondetString("file", 8)
+	verifAssume(len(file) >= 1)
+	for i := 0; i < len(file); i++ {
+		verifAssume(file[i] != '/' && file[i] != 0)
+	}
+	got := defaultOutputFile("/work/pkg/" + file)
+	last := -1
+	for i := 0; i < len(file); i++ {
+		if file[i] == '.' {
+			last = i
+		}
+	}
+	if last < 0 {
+		verifReach("no-extension")
+		verifAssert("gen-appended-without-extension", got == file+".gen")
+	} else {
+		verifReach("extension")
+		verifAssert("gen-inserted-before-the-final-extension", got == file[:last]+".gen"+file[last:])
+	}
+}
+
+// VerifHarness_C15_GetPackages: the packages pre-loaded for a run contain, for every converter, its own package,
+// the default ./generated package, the package its output:file selects (written on the converter or globally)
+// and the package of every function named by extend / map|FUNC / default - so that "the existing package at
+// that location" can be found for each of them.
+func VerifHarness_C15_GetPackages() {
+	n := 1 + nondetChoice("converters", 3)
+	globalFile := nondetChoice("global.output:file", 3)  // 0 none, 1 relative, 2 @cwd/
+	globalExtend := nondetChoice("global.extend", 2) == 1
+	raw := &Raw{WorkDir: "/work"}
+	if globalFile == 1 {
+		raw.Global.Lines = append(raw.Global.Lines, "output:file ./out/gen.go")
+	} else if globalFile == 2 {
+		raw.Global.Lines = append(raw.Global.Lines, "output:file @cwd/shared/gen.go")
+	}
+	if globalExtend {
+		raw.Global.Lines = append(raw.Global.Lines, "extend example.org/glob:F")
+	}
+	names := []string{"a", "b", "c"}
+	ownFile := make([]int, n)
+	ownExtend := make([]bool, n)
+	methodFn := make([]int, n)
+	for i := 0; i < n; i++ {
+		rc := RawConverter{PackagePath: "example.org/m/" + names[i], FileName: "/work/" + names[i] + "/in.go", Methods: map[string]RawLines{}}
+		ownFile[i] = nondetChoice("converter.output:file", 2)
+		if ownFile[i] == 1 {
+			rc.Converter.Lines = append(rc.Converter.Lines, "output:file ../gen"+names[i]+"/x.go")
+		}
+		ownExtend[i] = nondetChoice("converter.extend", 2) == 1
+		if ownExtend[i] {
+			rc.Converter.Lines = append(rc.Converter.Lines, "extend example.org/ext"+names[i]+":F Local")
+		}
+		methodFn[i] = nondetChoice("method.function", 3)
+		switch methodFn[i] {
+		case 1:
+			rc.Methods["M"] = RawLines{Lines: []string{"map A B | example.org/fn" + names[i] + ":F"}}
+		case 2:
+			rc.Methods["M"] = RawLines{Lines: []string{"default example.org/fn" + names[i] + ":F"}}
+		}
+		raw.Converters = append(raw.Converters, rc)
+	}
+	got := map[string]bool{}
+	for _, p := range getPackages(raw) {
+		got[p] = true
+	}
+	verifReach("packages")
+	for i := 0; i < n; i++ {
+		pkg := "example.org/m/" + names[i]
+		verifAssert("own-package-loaded", got["pattern="+pkg])
+		verifAssert("default-generated-package-loaded", got["pattern="+pkg+"/generated"])
+		if ownFile[i] == 1 {
+			verifAssert("converter-output-file-package-loaded", got["pattern=example.org/m/gen"+names[i]])
+		}
+		if globalFile == 1 {
+			verifAssert("global-relative-output-file-package-loaded-for-every-converter", got["pattern="+pkg+"/out"])
+		}
+		if globalFile == 2 {
+			verifAssert("global-cwd-output-file-package-loaded", got["pattern=example.org/m/shared"])
+		}
+		if ownExtend[i] {
+			verifAssert("extend-package-loaded", got["pattern=example.org/ext"+names[i]])
+		}
+		if methodFn[i] != 0 {
+			verifAssert("method-function-package-loaded", got["pattern=example.org/fn"+names[i]])
+		}
+	}
+	if globalExtend {
+		verifAssert("global-extend-package-loaded", got["pattern=example.org/glob"])
+	}
+}
